@@ -14,7 +14,8 @@ RULE = ("documents combining internal subsets with external general entities, pa
         "__inject, reply via transport, RequestContext.process_reply, WSDL document, imported schema, cached "
         "document, Parser.parse, Element-level parse of a string} ; parsed under a sys.addaudithook recorder; "
         "non-trivial = the document has at least one external reference; distinct = distinct (document, entry point)"
-        ' ; plus: XML declarations in every spelling (standalone=no), replies on the HTTP-error path, imported documents served under well-known locations, content handed on as bytearray / memoryview, documents the store holds under http locations, a 5 MiB reply')
+        ' ; plus: XML declarations in every spelling (standalone=no), replies on the HTTP-error path, imported documents served under well-known locations, content handed on as bytearray / memoryview, documents the store holds under http locations, a 5 MiB reply'
+        ' ; look-alike include/import elements of another vocabulary, imports of unbound namespaces without a location, suds:// locations spelling local files')
 ASSUMPTIONS = ["pyexpat / xml.sax.expatreader behave as documented for feature_external_ges (trusted, exercised here)",
                "interpreter audit events open / socket.* / urllib.Request see every file or network access"]
 PARTIAL = [{"theorem": "no_resolve_when_disabled", "missing": "about suds' configuration only; expat itself is runtime"}]
@@ -310,6 +311,43 @@ def run(ctx):
                         except Exception as e:
                             return type(e).__name__
 
+                    def ep_odd_locations(schema=schema):
+                        # what names a document to fetch is an XSD import / include with a schemaLocation (or a bound
+                        # namespace), handed to the configured store and transport - not a look-alike element of another
+                        # vocabulary, not a namespace URI, not a file the location happens to spell
+                        import io
+                        local = os.path.join(work, "local.xsd")
+                        variants_ = [
+                            ('<xl:include xmlns:xl="urn:not-xsd" schemaLocation="http://127.0.0.1:9/odd.xsd"/>'
+                             '<xl:import xmlns:xl="urn:not-xsd" namespace="urn:inc" schemaLocation="file://%s"/>' % local),
+                            '<xsd:import namespace="http://127.0.0.1:9/odd-ns"/><xsd:import namespace="file://%s"/>' % local,
+                            '<xsd:import namespace="urn:inc" schemaLocation="suds://%s"/>' % local,
+                            '<xsd:import namespace="urn:inc" schemaLocation="suds://../../../../../../../../%s"/>' % local.lstrip("/"),
+                            '<xsd:include schemaLocation="suds:%s"/>' % local,
+                        ]
+                        out = []
+                        for extra_decl in variants_:
+                            main = wsdlkit.wsdl_doc(extra_decl + schema, "f", "fResponse")
+                            asked = []
+
+                            class T(suds.transport.Transport):
+                                def open(self, request, main=main, asked=asked):
+                                    asked.append(request.url)
+                                    if request.url.endswith("main.wsdl"):
+                                        return io.BytesIO(main)
+                                    raise suds.transport.TransportError("no such document", 404)
+
+                                def send(self, request):
+                                    raise AssertionError("no send")
+                            try:
+                                cl = suds.client.Client("http://fetch.invalid/main.wsdl", transport=T(), cache=None)
+                                out.append(str(cl) + str(cl.wsdl.schema))
+                            except Exception as e:
+                                out.append(type(e).__name__)
+                            if extra_decl.startswith(("<xl:", '<xsd:import namespace="http')) and len(asked) != 1:
+                                out.append("%s fetched: %r" % (MARK, asked[1:]))
+                        return " ".join(out)
+
                     def ep_application_parser(reply=reply, c=c):
                         # the application uses the parser factory for a trusted document of its own and switches
                         # external entities on THERE: documents suds parses afterwards are not affected
@@ -331,6 +369,7 @@ def run(ctx):
                         extra.append(("application-parser", ep_application_parser))
                     if rep == 0 and name in ("none", "internal-only"):
                         extra.append(("send-only-transport", ep_send_only_transport))
+                        extra.append(("odd-locations", ep_odd_locations))
                     entry_points = extra + [("error-path", ep_error_path), ("import-url", ep_import_url),
                                     ("inject", ep_inject), ("transport", ep_transport), ("reqctx", ep_reqctx),
                                     ("parser", ep_parser), ("wsdl", ep_wsdl), ("import", ep_import), ("cache", ep_cache)]
@@ -347,7 +386,8 @@ def run(ctx):
                                 err = type(e).__name__
                         evs = [e for e in EVENTS
                                if not (e[0] in ("open", "os.listdir") and allowed_prefix in e[1])
-                               and not (e[0] == "open" and ("/suds/" in e[1] or e[1].endswith(".pyc'") or "/lib/python" in e[1]))]
+                               and not (e[0] == "open" and (("/suds/" in e[1] and e[1].rstrip("'").endswith(".py"))
+                                                         or e[1].endswith(".pyc'") or "/lib/python" in e[1]))]
                         ctx.case(common.canon(meta), name != "none")
                         ctx.dist["entry=" + epname] += 1
                         ctx.dist["result=" + (err or "parsed")] += 1
